@@ -141,12 +141,45 @@ def run(ctx):
     ctx.guard(rule_h, ctx, ix)
 
 
+def _canonical_flags(f, extra, flag):
+    """The function with its flag locals under the names the TABLE rows use, found by role:
+    a dirty flag is the local that is set to both False and True constants; `is_present` the local that remembers a membership
+    test of the structure before it is written; `dobroad` the local holding the conjunction of the hub-presence conditions."""
+    from ..util import rename_locals, FuncView
+    from ..announce import HUB_ATOMS
+    want = {x.replace('not ', '').strip() for x in (extra or ())} | ({flag} if flag else set())
+    want = {w for w in want if w.isidentifier()}
+    if not want:
+        return f
+    node = f.node
+    have = {n.id for n in ast.walk(node) if isinstance(n, ast.Name)}
+    m = {}
+    for w in sorted(want - have):
+        cands = []
+        consts = {}
+        for st in ast.walk(node):
+            if isinstance(st, ast.Assign) and len(st.targets) == 1 and isinstance(st.targets[0], ast.Name):
+                nm, v = st.targets[0].id, st.value
+                if isinstance(v, ast.Constant) and isinstance(v.value, bool):
+                    consts.setdefault(nm, set()).add(v.value)
+                if w == 'is_present' and isinstance(v, ast.Compare) and len(v.ops) == 1 and isinstance(v.ops[0], ast.In) and '_components' in unparse(v.comparators[0]):
+                    cands.append(nm)
+                if w == 'dobroad' and any(a in unparse(v) for a in ('.hub is not None', '_broadcasting')):
+                    cands.append(nm)
+        if w == 'changed' or w == flag:
+            cands += [nm for nm, vs in consts.items() if vs == {True, False}]
+        cands = sorted(set(cands))
+        if len(cands) == 1:
+            m[cands[0]] = w
+    return FuncView(f, rename_locals(node, m)) if m else f
+
+
 def rule_ab(ctx, ix):
     RA, RB = 'C17.a', 'C17.b'
     ctx.describe(RA, 'every structural mutation reaches its documented broadcast (only hub-presence / listed guards skip it)', floor=18)
     ctx.describe(RB, 'every such broadcast is preceded by the mutation (or guarded by a dirty flag set beside each write)', floor=14)
     for cq, name, wpred, msgs, extra, what, flag, exc in TABLE:
-        f = _func(ix, cq, name)
+        f = _canonical_flags(_func(ix, cq, name), extra, flag)
         an = Announcer(ctx, f)
         W = an.write_nodes(wpred)
         if not W:
@@ -291,13 +324,46 @@ def rule_e(ctx, ix):
     ctx.ob(R, f.construct + ' precedence', 'categories are searched in the order main > derived > coordinate > linked',
            all(o >= 0 for o in order) and order == sorted(order),
            detail='find_component_id searches the categories as %s' % cats, where=where(f, lp))
+    # the matches of one category: the local whose length decides what is returned
+    from .. import cond
     uniq = amb = False
-    for n in ast.walk(lp):
-        if isinstance(n, ast.If):
-            t = unparse(n.test).replace(' ', '')
-            if t == 'len(result)==1' and any(isinstance(x, ast.Return) and x.value is not None and 'result[0]' in unparse(x.value) for x in n.body):
+    lens = sorted({unparse(c.args[0]) for n in ast.walk(lp) if isinstance(n, ast.If) for c in ast.walk(n.test)
+                   if isinstance(c, ast.Call) and isinstance(c.func, ast.Name) and c.func.id == 'len' and len(c.args) == 1 and isinstance(c.args[0], ast.Name)})
+    if len(lens) == 1:
+        X = lens[0]
+
+        def holds(pc, n):
+            """truth of the path condition when the category has n matches (atoms over len(X) and integer constants)"""
+            env = {}
+            for a_ in cond.atoms(pc):
+                parts = a_.split('|')
+                def val(t):
+                    if t == 'len(%s)' % X:
+                        return n
+                    try:
+                        return int(t)
+                    except ValueError:
+                        return None
+                if a_ == X:
+                    env[a_] = n > 0
+                elif len(parts) == 3 and parts[0] in ('eq', 'lt'):
+                    l_, r_ = val(parts[1]), val(parts[2])
+                    if l_ is None or r_ is None:
+                        return None
+                    env[a_] = (l_ == r_) if parts[0] == 'eq' else (l_ < r_)
+                else:
+                    return None
+            return cond.evaluate(pc, env)
+        for r in [x for x in ast.walk(lp) if isinstance(x, ast.Return)]:
+            pc = cond.path_condition(f.node, r, expand=False)
+            if pc is None:
+                continue
+            truth = [holds(pc, n) for n in (0, 1, 2, 3)]
+            if None in truth:
+                continue
+            if r.value is not None and unparse(r.value) == '%s[0]' % X and truth == [False, True, False, False]:
                 uniq = True
-            if t in ('len(result)>1', 'len(result)>=2') and any(isinstance(x, ast.Return) and (x.value is None or unparse(x.value) == 'None') for x in n.body):
+            if (r.value is None or unparse(r.value) == 'None') and truth[2] and truth[3] and not truth[0] and not truth[1]:
                 amb = True
     ctx.ob(R, f.construct + ' unique', 'exactly one match in a category is returned', uniq,
            detail='find_component_id no longer returns the single match of a category', where=where(f, lp))
